@@ -15,6 +15,19 @@ EXTENDS Incr
 (* From-scratch evaluation                                                  *)
 RECURSIVE Eval(_, _, _)
 RECURSIVE EvalRecipe(_, _, _, _)
+RECURSIVE EvalExpert(_, _, _)
+\* the controlling map node of an expert construction is its first (static) dependency
+CtlOf(s, e) == CHOOSE m \in 1..s.n : s.def[m].k = "map" /\ "ctl" \in DOMAIN s.def[m] /\ s.def[m].ctl.x = e
+                                      /\ s.def[m].ctl.mode \in {"join", "sum"}
+EvalExpert(s, e, env) ==
+  LET m == CtlOf(s, e)
+      c == s.def[m].ctl
+      x == Eval(s, s.def[m].ins[1], env) IN
+  CASE c.mode = "join" -> Eval(s, x[2], env)
+    [] c.mode = "sum" ->
+         LET RECURSIVE Go(_, _)
+             Go(acc, i) == IF i > x[2] THEN acc ELSE Go((acc + Eval(s, c.ins[i], env)[2]) % K, i + 1)
+         IN I(Go(0, 1))
 EvalRecipe(s, rc, v, env) ==
   CASE rc.r = "pick"  -> Eval(s, rc.alts[v[2] + 1], env)
     [] rc.r = "ref"   -> Eval(s, v[2], env)
@@ -27,12 +40,13 @@ Eval(s, n, env) ==
   LET d == s.def[n] IN
   CASE d.k = "var"    -> env[n]
     [] d.k = "const"  -> d.init
-    [] d.k = "map"    -> ApplyMap(d, Eval(s, d.ins[1], env))
+    [] d.k = "map"    -> IF "ctl" \in DOMAIN d THEN Unit ELSE ApplyMap(d, Eval(s, d.ins[1], env))
     [] d.k = "map2"   -> F2(d.f, Eval(s, d.ins[1], env), Eval(s, d.ins[2], env))
     [] d.k = "fold"   -> FoldValue(d, [i \in 1..Len(d.ins) |-> Eval(s, d.ins[i], env)])
     [] d.k \in {"mapref", "mwo"} -> F1(d.f, Eval(s, d.ins[1], env))
     [] d.k = "lhs"    -> Unit
     [] d.k = "main"   -> EvalRecipe(s, s.def[d.lc].recipe, Eval(s, s.def[d.lc].ins[1], env), env)
+    [] d.k = "expert" -> EvalExpert(s, n, env)
 
 (* Which node does the bind closure return for lhs value v?  0 = a fresh node *)
 RECURSIVE RecipeExisting(_, _)
@@ -56,6 +70,7 @@ DeadRefP(s, n, seen) ==
        [] d.k \in {"map", "map2", "fold", "mapref", "mwo", "lhs"} ->
             \E i \in 1..Len(d.ins) : DeadRefP(s, d.ins[i], sn)
        [] d.k = "main" -> DeadRefP(s, d.lc, sn) \/ (s.rhs[d.lc] # 0 /\ DeadRefP(s, s.rhs[d.lc], sn))
+       [] d.k = "expert" -> n \in s.xdead \/ \E i \in 1..Len(s.edges[n]) : DeadRefP(s, s.edges[n][i].child, sn)
        [] OTHER -> FALSE
 DeadRef(s, n) == DeadRefP(s, n, {})
 
@@ -70,6 +85,7 @@ ExactCone(s, n) ==
        [] d.k \in {"map", "map2", "fold", "mapref", "lhs"} ->
             \A i \in 1..Len(d.ins) : ExactCone(s, d.ins[i])
        [] d.k = "main" -> ExactCone(s, d.lc) /\ (s.rhs[d.lc] = 0 \/ ExactCone(s, s.rhs[d.lc]))
+       [] d.k = "expert" -> \A i \in 1..Len(s.edges[n]) : ExactCone(s, s.edges[n][i].child)
        [] OTHER -> FALSE
 
 (* Dependency cone of a set of nodes through the CURRENT bind right-hand sides *)
